@@ -144,4 +144,3 @@ func cmdFn(args []string) {
 func sortedResults(rs []Result) {
 	sort.Slice(rs, func(i, j int) bool { return rs[i].Obl.ID < rs[j].Obl.ID })
 }
-
